@@ -2136,8 +2136,23 @@ impl KyroDbService for KyroDBServiceImpl {
         }
 
         let start = Instant::now();
-        match engine.query_with_source(global_doc_id, None) {
-            Some((embedding, served_from)) => {
+        // The checks above hide foreign documents early; the answer itself is built from ONE
+        // consistent observation (vector + the metadata written with it) and re-checked, so an
+        // overwrite racing with this read cannot pair one write's vector with another's metadata
+        // or slip a document of another namespace past the selector.
+        let answer = engine
+            .query_with_source_and_metadata(global_doc_id)
+            .filter(|(_, metadata, _)| {
+                let tenant_ok = tenant.as_ref().map_or(true, |t| {
+                    metadata.get("__tenant_idx__") == Some(&t.tenant_index.to_string())
+                });
+                let namespace_ok = req.namespace.is_empty()
+                    || metadata.get("__namespace__").map(|s| s.as_str()).unwrap_or("")
+                        == req.namespace;
+                tenant_ok && namespace_ok
+            });
+        match answer {
+            Some((embedding, internal_metadata, served_from)) => {
                 let latency_ns = start.elapsed().as_nanos() as u64;
                 let latency_ms = latency_ns as f64 / 1_000_000.0;
                 self.state.metrics.record_query_latency(latency_ns);
